@@ -458,6 +458,7 @@ func runC18(c *Ctx) {
 	}
 	runC18More(c)
 	runC18TickerRearm(c)
+	runC18Round5(c)
 }
 
 func runC18Wiring(c *Ctx) {
